@@ -275,6 +275,8 @@ pub(crate) mod kani_verif {
     protocol_harness!(c04_core_bad0, false, 10);
     // @h name=c04_core_bad1 props=C04,C11,C14 tier=thorough kind=proved cfg=L2w8 timeout=1500 kani_args="--no-memory-safety-checks --no-undefined-function-checks" funcs=hss_sign_core;CompressedParameterSet::to contract="parameter byte 1 invalid or beyond the build limits"
     protocol_harness!(c04_core_bad1, false, 11);
+    // @h name=c04_core_bad1_L2small props=C04,C14!,C11 tier=quick kind=proved cfg=L2small timeout=1500 kani_args="--no-memory-safety-checks --no-undefined-function-checks" funcs=hss_sign_core;CompressedParameterSet::to contract="build with different limits per level (heights (10,5), W (4,8)): parameter byte 1 invalid or beyond the limits OF LEVEL 1 (e.g. height 10, allowed on level 0 only): Err, callback not invoked, nothing signed"
+    protocol_harness!(c04_core_bad1_L2small, false, 11);
     // @h name=c04_core_toomany props=C04,C11!,C14! tier=quick kind=proved cfg=L2w8 timeout=1500 kani_args="--no-memory-safety-checks --no-undefined-function-checks" funcs=hss_sign_core;ReferenceImplPrivateKey::from_binary_representation contract="more levels than the build supports: Err, callback not invoked"
     protocol_harness!(c04_core_toomany, false, 20);
     // @h name=c04_hss_sign_l1 props=C04,C09 tier=thorough kind=proved cfg=L2w8 timeout=1500 kani_args="--no-memory-safety-checks --no-undefined-function-checks" funcs=hss_sign contract="same protocol through the public byte-level entry point hss_sign, 1 level"
